@@ -102,7 +102,7 @@ macro "crunch" : tactic => `(tactic| (try simp) <;> (try ((repeat' split) <;> si
 @[simp] theorem parseCommand_U (D : Desc) (s : St) (i : SvcIn) : KeepsU s (parseCommand D s i).1 := by
   simp [parseCommand]; crunch
 @[simp] theorem updateCommand_U (D : Desc) (s : St) : KeepsU s (updateCommand D s).1 := by
-  simp [updateCommand]; crunch
+  simp [updateCommand, updateAdvance, updateLane]; crunch
 @[simp] theorem waitReadAcknowledge_U (s : St) (i : SvcIn) : KeepsU s (waitReadAcknowledge s i).1 := by
   simp [waitReadAcknowledge]; crunch
 @[simp] theorem waitTestAcknowledge_U (D : Desc) (s : St) (i : SvcIn) : KeepsU s (waitTestAcknowledge D s i).1 := by
